@@ -5,7 +5,7 @@ V = os.path.dirname(os.path.dirname(os.path.abspath(__file__)))
 TECH = 'deterministic simulation with fault injection: seeded runs of real FSM::Instance nodes (authority, twin, copy, followers over a lossy transport, durable store with crash/restart) under behaviour cards; '
 C = {
  'C01': ('well-formedness invariant evaluated on every node after every operation and inside update/react/query/guard callbacks', '9 C01',
-         'exploration of seeded histories (all request kinds, guard vetoes and substitutions, adversarial select()/utility()/rng values, reset, loads into unrelated configurations, replays, crash recovery) on 13 fixed shapes x up to 16 configurations; the invariant is model-free (computed from an independently derived structure table)',
+         'exploration of seeded histories (all request kinds, guard vetoes and substitutions, adversarial select()/utility()/rng values, reset, loads into unrelated configurations, replays, crash recovery) on 17 fixed shapes x up to 17 configurations; the invariant is model-free (computed from an independently derived structure table)',
          'trusts gen/shapes.py for the structure table (static_asserted against the library ids/counts) and the harness observation through isActive()/activeSubState(); generator respects the documented preconditions; sampling, not enumeration'),
  'C02': ('clause-wise reference model (sim/model.cpp) fed the observed approved requests, resolver returns and random numbers: destination active, choice by request kind, untouched regions, resumable marks, reset, idle processing', '9 C02 / Appendix B.1',
          'refinement of sampled steps against a small executable model written from the statement; clauses the statement leaves open are explicit don\'t-cares; documented defects of batch handling are avoided and announced as known findings',
@@ -21,16 +21,16 @@ C = {
          'position of injected vs own handler inside query() is not compared; finding F-C05-1 open'),
  'C06': ('plan model: plan-issued requests (seen by guards / logger) match a stored task (destination, payload, kind) whose origin was active and succeeded; executed tasks removed exactly once; completeness in the statement\'s simple situation; marks cleared after the step (probe)', '9 C06 / Appendix B.4',
          'exploration with dense plan edits, succeed/fail cards in every phase, external succeed/fail, task capacities 1,3,default',
-         'completeness is decided only when marks are self-reports or client calls on active direct sub-states and nobody requests a transition in the step; findings F-C06-1..3 open'),
+         'completeness is decided only when marks are self-reports or client calls on active direct sub-states and nobody requests a transition in the step; findings F-C06-1..4 open'),
  'C07': ('per-region vector model of the observed edits compared with Plan iteration after every operation; append result vs capacity; link structure through the probe (disjoint, acyclic, doubly linked, lengths add up)', '9 C07',
          'exploration of interleaved append / remove-while-iterating / clear from callbacks of different regions and from outside, at capacities 1, 3 and default',
          'hook HFSM2_VERIF probe (read-only friend) exposes taskLinks/taskBounds; capacities are those of the built shapes'),
- 'C08': ('snapshot round trip on followers and on the restarted authority: active and resumable equal to the saved instance, re-save bit-identical, exits/enters match the configuration change, save() pure, buffer between guard bytes', '9 C08',
+ 'C08': ('snapshot round trip on followers and on the restarted authority: active and resumable equal to the saved instance, re-save bit-identical, exits/enters match the configuration change, save() pure, buffer between guard bytes and pre-filled with a per-node pattern, declared bit capacity equal to the longest image the structure can produce', '9 C08',
          'exploration with fault injection: drop / reorder / partition / perturbation put the loading instance into unrelated or inactive configurations; crash + restart loads into a fresh instance in dirty memory; peer of a separately instantiated type',
          'no corrupted buffers are injected (the library promises nothing for them)'),
  'C09': ('history content rules (sub-sequence of approved requests, empty when nothing approved, lastTransitionTo inside the array, single approved request pins every state it activated) and follower / recovery agreement after replayTransitions()/replayEnter() without guard calls', '9 C09 / Appendix B.5',
          'exploration with drop / duplicate / reorder / delay / partition and crash + restart (snapshot + log replay)',
-         'replicas are compared only when they were in the authority\'s pre-step state key; resumable equality only for single-round schedule-free steps as the statement says; finding F-C09-1 open'),
+         'replicas are compared only when they were in the authority\'s pre-step state key; resumable equality only for single-round schedule-free steps as the statement says; findings F-C09-1..3 open'),
  'C10': ('trace and observation equality between an instance and its identically driven twin in differently pre-filled, differently placed storage; copy continues like the original; simulator same-seed-twice hash', '9 C10',
          'differential exploration: four arena fill patterns, relocation on restart, copy at arbitrary operations, death of the original, built-in and scripted generators',
          'finding F-C10-1 (copies share the built-in generator) open'),
@@ -52,7 +52,7 @@ C = {
  'C16': ('logger stream vs the callbacks\' own trace (methods, transitions, cancellations, task and plan statuses, select/random resolutions), silent while detached, logger-less twin behaves identically; structure()[i].isActive == isActive(i) after every op; activityHistory all-or-none saturating step model incl. 150-320 tick runs', '9 C16 / Appendix C',
          'exploration with attach/detach at arbitrary operations in interface and verbose logging modes',
          'extra transition records are accepted only with a region head as origin (plan execution)'),
- 'C19': ('pool invariants through the probe after every operation inside whole-system plan workloads: count = live slots, vacant chain from head to tail disjoint from live slots and acyclic, full <=> no vacant list, lengths add up; contents via the C07 model; request/transition arrays observed through requests()/pendingTransitions()/previousTransitions()', '9 C19',
+ 'C19': ('pool invariants through the probe after every operation inside whole-system plan workloads: count = live slots, vacant chain from head to tail disjoint from live slots and acyclic, full <=> no vacant list, lengths add up; contents via the C07 model; request/transition arrays observed through requests()/pendingTransitions()/previousTransitions(); bulk append: previousTransitions() equals the concatenation of the approved rounds\' pending lists (order, count, contents) whenever every round was observed', '9 C19',
          'exploration at task capacities 1, 3 and default with dense insert/remove/clear across regions (recycle / grow / last / full branches, probes in the evidence)',
          'capacities are those of the compiled shapes, not every capacity'),
 }
